@@ -25,7 +25,6 @@ func ContainsFold(s, substr string) (ok bool) {
 	}
 
 	first, _ := utf8.DecodeRuneInString(substr)
-	firstFolded := unicode.SimpleFold(first)
 
 	for i := 0; i != -1 && len(s) >= len(substr); {
 		if strings.EqualFold(s[:substrLen], substr) {
@@ -33,10 +32,27 @@ func ContainsFold(s, substr string) (ok bool) {
 		}
 
 		i = strings.IndexFunc(s[1:], func(r rune) (eq bool) {
-			return r == first || r == firstFolded
+			return equalFoldRune(r, first)
 		})
 
 		s = s[1+i:]
+	}
+
+	return false
+}
+
+// equalFoldRune returns true if r and target are equal under Unicode simple
+// case folding.  It walks the whole fold orbit of target, since it may contain
+// more than two runes, e.g. 'K', 'k', and the Kelvin sign.
+func equalFoldRune(r, target rune) (ok bool) {
+	if r == target {
+		return true
+	}
+
+	for f := unicode.SimpleFold(target); f != target; f = unicode.SimpleFold(f) {
+		if f == r {
+			return true
+		}
 	}
 
 	return false
